@@ -213,8 +213,9 @@ func GetNode(children []*Node, path string) (*Node, bool) {
 		}
 		if len(pathSplit) > 1 {
 			// the rest of the path lies beneath this node: a file has nothing beneath it
+			// (a directory of the same name may follow, so keep looking)
 			if len(node.Children) == 0 {
-				return nil, false
+				continue
 			}
 			return GetNode(node.Children, pathSplit[1])
 		}
